@@ -1,7 +1,8 @@
 -------------------------- MODULE Gen_MockExchange --------------------------
 (* Scenario generation for the conformance harness (spec -> impl): request    *)
 (* sequences of MockExchange printed as JSON, one line per behaviour:         *)
-(*   {"init": {fee, lat, bal, open}, "evs": [ {req, out, why, id, filled} ]}   *)
+(*   {"init": {fee, lat, bal, open, up}, "evs": [ {req, out, why, id, filled} ]} *)
+(* (`up` = FALSE: the exchange task has ended before the first request)      *)
 (* The harness replays `init` + the `req` of every element into the real     *)
 (* exchange; what the implementation answers is judged by Trace_MockExchange *)
 (* (the `out`/`id` printed here are only what the specification expects).     *)
@@ -10,41 +11,50 @@
 (*  GSpecR (simulation): long random request sequences; the request is drawn  *)
 (*         with RandomElement so that a step has a single successor.          *)
 EXTENDS MockExchange, Json
-CONSTANTS MaxLen
+CONSTANTS MaxLen, OrderSubsets
 VARIABLES init, hist, done
 
 gvars == <<vars, init, hist, done>>
+
+Max(S) == CHOOSE x \in S : \A y \in S : y <= x
 
 SetToSeq(S) == LET RECURSIVE F(_) F(T) == IF T = {} THEN <<>> ELSE LET x == CHOOSE x \in T : TRUE IN <<x>> \o F(T \ {x}) IN F(S)
 
 GInit == /\ fee \in FeePcts
          /\ lat \in Lats
          /\ bal \in {[a \in Assets |-> [total |-> f[a], free |-> f[a]]] : f \in [Assets -> BalInit]}
-         /\ open \in SUBSET {OpenOrder(c) : c \in OpenCids}
+         /\ orders \in (IF OrderSubsets THEN SUBSET {OpenOrder(c) : c \in OpenCids}
+                                          ELSE {{OpenOrder(c) : c \in OpenCids}})
+         \* an exchange whose task has already ended: one account is enough (nothing depends on it)
+         /\ up \in (IF \A a \in Assets : bal[a].free = Max(BalInit) THEN BOOLEAN ELSE {TRUE})
          /\ nextId = 0 /\ now = 0 /\ trades = <<>> /\ notif = <<>>
          /\ last = Resp(NoReq, "init", "-", -1, 0)
          /\ res = NoRes
-         /\ init = [fee |-> fee, lat |-> lat, bal |-> bal, open |-> SetToSeq(open)]
+         /\ init = [fee |-> fee, lat |-> lat, bal |-> bal, open |-> SetToSeq(orders), up |-> up]
          /\ hist = <<>>
          /\ done = FALSE
 
 GStep == /\ ~done /\ Len(hist) < MaxLen
-         /\ \E r \in Requests : \E id \in FreshIds : \E tt \in ClockChoices(r) : Serve(r, id, tt)
+         /\ \E r \in Requests \cup {KillReq} : \E id \in FreshIds : \E tt \in ClockChoices(r) :
+               Serve(r, id, tt, "offline")
          /\ hist' = Append(hist, last')
          /\ UNCHANGED <<init, done>>
 
 \* most requests are market orders on listed instruments (the arms with a ledger effect); the
 \* rest is spread over everything a client can send.  Every draw is bound through a singleton
 \* set (a RandomElement inside a LET is re-drawn at every reference).
-ReqClass(c) == IF c <= 6 THEN {r \in OpenReqs : Market(r) /\ Listed(r)}
-               ELSE IF c = 7 THEN OpenReqs
-               ELSE IF c = 8 THEN TradeReqs
-               ELSE IF c = 9 THEN SnapReqs
-               ELSE BalReqs
+ReqClass(c) == IF c <= 22 THEN {r \in OpenReqs : Market(r) /\ Listed(r)}
+               ELSE IF c <= 26 THEN OpenReqs
+               ELSE IF c <= 31 THEN TradeReqs
+               ELSE IF c <= 33 THEN SnapReqs
+               ELSE IF c <= 35 THEN BalReqs
+               ELSE IF c <= 37 THEN OrdReqs
+               ELSE IF c <= 39 THEN CancelReqs
+               ELSE {KillReq}
 
 GStepR == /\ ~done /\ Len(hist) < MaxLen
-          /\ \E c \in {RandomElement(1..10)} : \E r \in {RandomElement(ReqClass(c))} :
-                \E id \in FreshIds : \E tt \in ClockChoices(r) : Serve(r, id, tt)
+          /\ \E c \in {RandomElement(1..40)} : \E r \in {RandomElement(ReqClass(c))} :
+                \E id \in FreshIds : \E tt \in ClockChoices(r) : Serve(r, id, tt, "offline")
           /\ hist' = Append(hist, last')
           /\ UNCHANGED <<init, done>>
 
